@@ -143,10 +143,10 @@ EndOK(ev, k, p, v) ==
 
 SplEvalOK(ev) ==
   LET p == SplOf(ev.a) IN
-  /\ For("C14") => SplOf(ev.a_after) = p
+  /\ For("C14") => SplOf(ev.a_after) = p /\ ev.vals2 = ev.vals      \* evaluating does not change later evaluations
   /\ For("C02") =>
        /\ SplValid(p) /\ Len(ev.vals) = Len(ev.xs)
-       /\ \A i \in DOMAIN ev.xs : EvalPost(p, ev.xs[i], ev.vals[i])
+       /\ \A i \in DOMAIN ev.xs : EvalPost(p, ev.xs[i], ev.vals[i]) /\ EvalPost(p, ev.xs[i], ev.vals2[i])
        /\ EndOK(ev, "front", p, SupFront(SplSup(p)))
        /\ EndOK(ev, "back", p, SupBack(SplSup(p)))
 
@@ -256,6 +256,9 @@ OpBFOK(ev) ==
                   /\ ev.bf = "ok" /\ ev.bf_v = BilinearVal(ev.e1, ev.e2, a, b, fs)
                   /\ ev.sw = "ok" /\ ev.sw_v = ev.bf_v                 \* pairs swapped
                   /\ (Common(a, b) = {} => ev.bf_v = RZero)
+                  \* the one-operator and default constructors, ScalarProduct
+                  /\ (Has(ev, "bf1") => ev.bf1 = "ok" /\ ev.bf1_v = ev.bf_v)
+                  /\ (Has(ev, "sp") => ev.sp = "ok" /\ ev.sp_v = ev.bf_v /\ ev.dflt_v = ev.bf_v)
              /\ For("C07") => ev.bf = "ok" /\ ev.lfp = "ok" /\ ev.lfp_v = ev.bf_v
         ELSE For("C08") =>
              IF Common(a, b) # {}
